@@ -33,6 +33,7 @@ type seqEngine struct {
 	profile    Profile
 	nontrivial func(out *SeqOutcome) bool
 	saveLoad   bool
+	admission  bool
 }
 
 func (e *seqEngine) Run(a *agg, spec *PropSpec, seed uint64) {
@@ -46,6 +47,7 @@ func (e *seqEngine) Run(a *agg, spec *PropSpec, seed uint64) {
 		hi *= 2 // deeper programs in half of the thorough runs
 	}
 	nops := lo + rng.Intn(hi-lo+1)
+	sc.Admission = e.admission
 	if e.saveLoad {
 		pl := &SaveLoadPlan{ChunkSeed: rng.Uint64(), MaxChunk: []int{0, 1, 3, 17, 400}[rng.Intn(5)], CleanUp: rng.Bool()}
 		switch rng.Intn(5) {
@@ -153,7 +155,7 @@ func minimizeSeq(seed uint64, sc *SeqCase, prop, rule string, budgetS float64) *
 		out := RunSeq(seed, c, nil, 0, true)
 		return hasRule(out.Viol, prop, rule)
 	}
-	cur := &SeqCase{Cfg: sc.Cfg, Ops: append([]Op(nil), sc.Ops...), SaveLoad: sc.SaveLoad}
+	cur := &SeqCase{Cfg: sc.Cfg, Ops: append([]Op(nil), sc.Ops...), SaveLoad: sc.SaveLoad, Admission: sc.Admission}
 	if !fails(cur) {
 		return sc // not deterministic?! keep the original
 	}
@@ -167,7 +169,7 @@ func minimizeSeq(seed uint64, sc *SeqCase, prop, rule string, budgetS float64) *
 			if j > len(cur.Ops) {
 				j = len(cur.Ops)
 			}
-			cand := &SeqCase{Cfg: cur.Cfg, SaveLoad: cur.SaveLoad}
+			cand := &SeqCase{Cfg: cur.Cfg, SaveLoad: cur.SaveLoad, Admission: cur.Admission}
 			cand.Ops = append(cand.Ops, cur.Ops[:i]...)
 			cand.Ops = append(cand.Ops, cur.Ops[j:]...)
 			if (len(cand.Ops) > 0 || cand.SaveLoad != nil) && fails(cand) {
@@ -194,7 +196,7 @@ func minimizeSeq(seed uint64, sc *SeqCase, prop, rule string, budgetS float64) *
 		if !time.Now().Before(deadline) {
 			return
 		}
-		cand := &SeqCase{Cfg: cur.Cfg, Ops: cur.Ops, SaveLoad: cur.SaveLoad}
+		cand := &SeqCase{Cfg: cur.Cfg, Ops: cur.Ops, SaveLoad: cur.SaveLoad, Admission: cur.Admission}
 		mut(&cand.Cfg)
 		if fails(cand) {
 			cur = cand
